@@ -18,6 +18,7 @@ __CPROVER_ensures(g_cur == g_k ? (g_push_v == v && g_push_t == t && g_push_o == 
 __CPROVER_assigns(g_npush, g_push_v, g_push_t, g_push_o);
 //@extract file=CPP/Clipper2Lib/src/clipper.engine.cpp func=ClipperBase::AddReuseableData self=ClipperBase byptr=reuseable_data iters=reuseable_data.minima_list_:i
 //@sub /LocalMinimaList::const_iterator i;/size_t i;/
+//@sub /self->minima_list_\.reserve\([^;]*\);//  min=0
 //@sub /i = reuseable_data->minima_list_\.cbegin\(\)/i = 0/
 //@sub /i != reuseable_data->minima_list_\.cend\(\)/i != reuseable_data->minima_list_.size/
 //@sub /self->minima_list_\.emplace_back\(std::make_unique <LocalMinima>\(([^;]*)\)\);/LocalMinima* lm_ = vf_lm_at(reuseable_data, i); vf_push_lm(self, \1);/
